@@ -138,7 +138,7 @@ impl UdpSocket {
     }
 
     /// Close the socket. If the returned future is dropped before polling, the
-    /// socket won't be closed.
+    /// socket is dropped like any other handle.
     ///
     /// See [`TcpStream::close`] for more details.
     ///
